@@ -26,6 +26,15 @@ def points(rng, n, style):
             t = dy(rng, 4, -32, 32)
             pts.append([a * t + dy(rng, 10, -1, 1) / 16, b * t + dy(rng, 10, -1, 1) / 16])
         return pts
+    if style == 'strip':
+        # a very thin oblique strip (aspect ~1e-4): similarity fits stay well conditioned, the cross determinant that
+        # decides rotation vs reflection is ~1e-8 of its scale - small, but far above rounding
+        a, b = rng.choice([-3, -2, -1, 1, 2, 3]), rng.randrange(1, 4)
+        pts = []
+        for _ in range(n):
+            t = dy(rng, 4, -32, 32)
+            pts.append([a * t + dy(rng, 10, -1, 1) / 128, b * t - dy(rng, 10, -1, 1) / 128])
+        return pts
     raise ValueError(style)
 
 
